@@ -242,9 +242,11 @@ def translate_codec():
     if not (isinstance(loop, ast.For) and t2.src(loop.target) == '(name, data)'
             and t2.src(loop.iter) == 'cell_data.items()' and not loop.orelse and len(loop.body) == 3):
         raise TranslateError('_decode_cell_data: loop')
-    if t2.src(loop.body[0]) != "subnames = name.split(':')" \
-            or t2.src(loop.body[1]) != "if subnames[0] != 'skfem':\n    continue":
-        raise TranslateError('_decode_cell_data: name parsing')
+    splits = {"subnames = name.split(':')": 'parse_key', "subnames = name.split(':', 2)": 'parse_key2',
+              "subnames = name.split(':', maxsplit=2)": 'parse_key2'}
+    if t2.src(loop.body[0]) not in splits or t2.src(loop.body[1]) != "if subnames[0] != 'skfem':\n    continue":
+        raise TranslateError('_decode_cell_data: name parsing: ' + t2.src(loop.body[0]))
+    parse = splits[t2.src(loop.body[0])]
     br = loop.body[2]
     if not (isinstance(br, ast.If) and t2.src(br.test) == "subnames[1] == 's'" and len(br.orelse) == 1
             and isinstance(br.orelse[0], ast.If) and t2.src(br.orelse[0].test) == "subnames[1] == 'b'"
@@ -280,7 +282,8 @@ def translate_codec():
     gen_dec = ('Definition gen_decode_boundary (nslots nt : nat) (t2f : mat nat) (f2t : mat Z)\n'
                '    (data : list N) : list nat * list bool :=\n  ' + tr.body(f'({f}, {o})') + '.')
     gen_keys = (f'Definition gen_key_subdomain : String.string := "{keys[0]}"%string.\n'
-                f'Definition gen_key_boundary : String.string := "{keys[1]}"%string.')
+                f'Definition gen_key_boundary : String.string := "{keys[1]}"%string.\n'
+                f'Definition gen_parse_key := {parse}.   (* {t2.src(loop.body[0])} *)')
     return '\n\n'.join([gen_enc, gen_sub, gen_dsub, gen_dec]), gen_keys
 
 
@@ -368,11 +371,11 @@ TO_DICT = ['boundaries = None', 'subdomains = None',
            'if isinstance(v, OrientedBoundary)}',
            "return {'p': self.p.T.tolist(), 't': self.t.T.tolist(), 'boundaries': boundaries, 'subdomains': subdomains, "
            "**({'orientations': orientations} if orientations else {})}"]
-FROM_DICT = ["if 'boundaries' in data and data['boundaries'] is not None:\n    data['boundaries'] = {k: np.array(v) "
+FROM_DICT = ["if 'boundaries' in data and data['boundaries'] is not None:\n    data['boundaries'] = {k: np.array(v, dtype=np.int32) "
              "for k, v in data['boundaries'].items()}",
              "for k, v in (data.pop('orientations', None) or {}).items():\n    data['boundaries'][k] = "
              "OrientedBoundary(data['boundaries'][k], v)",
-             "if 'subdomains' in data and data['subdomains'] is not None:\n    data['subdomains'] = {k: np.array(v) "
+             "if 'subdomains' in data and data['subdomains'] is not None:\n    data['subdomains'] = {k: np.array(v, dtype=np.int32) "
              "for k, v in data['subdomains'].items()}",
              "data['doflocs'] = data.pop('p')", "data['_subdomains'] = data.pop('subdomains')",
              "data['_boundaries'] = data.pop('boundaries')", 'return cls(**data)']
